@@ -451,6 +451,11 @@ class Data(object):
         """
 
         num_inputs = self._get_num_inputs_with_clim()
+
+        # Cache under the requested field. The observation and forecast fields
+        # can be remapped (-obs, -fcst), even onto the same underlying field,
+        # and each must keep its own array.
+        key = field
         if field == verif.field.Obs():
             """
             Treat observation different. Since the observations should be the same
@@ -458,8 +463,8 @@ class Data(object):
             missing these
             """
             field = self._obs_field
-            if field in self._get_score_cache[input_index]:
-                return self._get_score_cache[input_index][field]
+            if key in self._get_score_cache[input_index]:
+                return self._get_score_cache[input_index][key]
 
             found_obs = False
             loaded = dict()
@@ -492,26 +497,26 @@ class Data(object):
             # Only cache once all inputs have been loaded, so that a failure
             # part way does not leave some inputs cached without the others
             for i in loaded:
-                self._get_score_cache[i][field] = loaded[i]
+                self._get_score_cache[i][key] = loaded[i]
 
             for i in range(num_inputs):
-                if field not in self._get_score_cache[i]:
+                if key not in self._get_score_cache[i]:
                     for j in range(num_inputs):
-                        if field in self._get_score_cache[j]:
+                        if key in self._get_score_cache[j]:
                             verif.util.warning("No observations in %s. Loading from %s" % (self._inputs[i].fullname, self._inputs[j].fullname))
-                            self._get_score_cache[i][field] = self._get_score_cache[j][field]
+                            self._get_score_cache[i][key] = self._get_score_cache[j][key]
                             break
         else:
             # Check if data is cached
-            if field in self._get_score_cache[input_index]:
-                return self._get_score_cache[input_index][field]
+            if key in self._get_score_cache[input_index]:
+                return self._get_score_cache[input_index][key]
 
             if field == verif.field.Fcst():
                 field = self._fcst_field
 
             loaded = dict()
             for i in range(num_inputs):
-                if field not in self._get_score_cache[i]:
+                if key not in self._get_score_cache[i]:
                     input = self._inputs[i]
                     all_fields = input.get_fields()
                     if isinstance(field, verif.field.Threshold):
@@ -594,7 +599,7 @@ class Data(object):
             # Only cache once all inputs have been loaded, so that a failure
             # part way does not leave some inputs cached without the others
             for i in loaded:
-                self._get_score_cache[i][field] = loaded[i]
+                self._get_score_cache[i][key] = loaded[i]
 
         """
         Remove missing. If one configuration has a missing value, set all
@@ -602,13 +607,13 @@ class Data(object):
         available, but have missing values.
         """
         if self._remove_missing_across_all:
-            is_missing = np.isnan(self._get_score_cache[0][field])
+            is_missing = np.isnan(self._get_score_cache[0][key])
             for i in range(1, num_inputs):
-                is_missing = is_missing | (np.isnan(self._get_score_cache[i][field]))
+                is_missing = is_missing | (np.isnan(self._get_score_cache[i][key]))
             for i in range(num_inputs):
-                self._get_score_cache[i][field][is_missing] = np.nan
+                self._get_score_cache[i][key][is_missing] = np.nan
 
-        return self._get_score_cache[input_index][field]
+        return self._get_score_cache[input_index][key]
 
     def _calculate_window(self, array, leadtimes):
         O = array.shape[1]
